@@ -36,7 +36,7 @@ def anchors():
 def cases(seed, tier):
     q = tier == "quick"
     out = []
-    fams = ["mob"] * 4 + ["vor"] * 2 + ["arc"] * 2 + ["lat-square", "lat-brick", "lat-hex", "vor4", "mob4", "lat-tri", "lat-fan"]
+    fams = ["mob"] * 4 + ["vor"] * 2 + ["arc"] * 2 + ["lat-square", "lat-brick", "lat-hex", "vor4", "mob4", "lat-tri", "lat-fan", "lat-diamond", "lat-rosette"]
     n = 44 if q else 660
     for i in range(n):
         out.append({"fam": fams[i % len(fams)], "seed": [seed, 2, i], "count": 3})
